@@ -129,6 +129,18 @@ WeekVerdicts(w) ==
     ELSE IF \A d \in Weekdays : RangeVerdicts(w[d]) = {"accept"} THEN {"accept"}
     ELSE {"accept", "reject"}
 
+\* ------------------------------------------------- the schedule in effect
+\* Decoding a serialised schedule `doc` (a record with the week in doc.w) into
+\* a holder that currently holds `prev` is ALL OR NOTHING: either the document
+\* is accepted and the holder then holds exactly the document, or it is
+\* rejected and the holder holds exactly what it held before -- a rejected
+\* schedule does not take effect, not even in part.  (A set, because the
+\* verdict may be undecided.)
+DecodeOutcomes(prev, doc) ==
+    LET v == WeekVerdicts(doc.w) IN
+    (IF "accept" \in v THEN {[ok |-> TRUE,  val |-> doc]}  ELSE {}) \cup
+    (IF "reject" \in v THEN {[ok |-> FALSE, val |-> prev]} ELSE {})
+
 \* ------------------------------------------------- helpers for enumeration
 \* Every tick within [lo, hi] at which the wall clock of z shows day D, time
 \* of day x (x = TPD means 24:00, i.e. 00:00 of D + 1).  An instant s with
